@@ -42,5 +42,7 @@ SEEDED = [
     ("C04-9", "C04-DIM"),
     ("C04-10", "C04-SAME"),
     ("C04-11", "C04-CHR"),
+    ("C04-12", "C04-CHR"),
+    ("C04-13", "C04-CHR"),
 ]
 MUTANTS = list(MUTANTS) + [_P("seed-" + sid, _os.path.join(_SEEDS, sid, "patch.diff"), rule) for sid, rule in SEEDED if _os.path.exists(_os.path.join(_SEEDS, sid, "patch.diff"))]
